@@ -26,6 +26,7 @@ const (
 	EvId     = 15 // request identity seen by a rule  C = value of Req.ID
 	EvOpt    = 16 // optional key read         C = value
 	EvUpdIn  = 17 // management op from inside a rule: C = op index
+	EvKey    = 18 // forRange loop key seen by the loop body  C = key
 	EvCallB  = 20 // API call invoked          B = method, C = client
 	EvCallR  = 21 // API call returned         B = method, C = flags (1 err, 2 panic)
 	EvMgmtB  = 30 // management op invoked     A = op index
@@ -48,9 +49,10 @@ type RulePlan struct {
 
 // Req / Resp / Tag are the per-request objects injected into a call.
 type Req struct {
-	ID int64
-	Sl []int64
-	In *In
+	ID     int64
+	Sl     []int64
+	In     *In
+	hidden int64 // unexported: a rule that returns it must fail (reflection cannot hand the value out)
 }
 
 type Resp struct {
@@ -137,6 +139,9 @@ func (h *H) B(r, p int64) {
 	if rd := h.sc.Rule(int(r)); rd != nil && int(p) < len(rd.Secs) && (rd.Secs[p].Kind == SecReader) {
 		fire = 1 // a reader rule always faults: it reads a local it never assigned
 	}
+	if rd := h.sc.Rule(int(r)); rd != nil && int(p) == len(rd.Secs) && rd.Ret == RetUnexp {
+		fire = 1 // returning an unexported field always faults
+	}
 	if rd := h.sc.Rule(int(r)); rd != nil && int(p) < len(rd.Secs) && rd.Secs[p].Kind == SecOpt && !h.c.HasOpt {
 		fire = 1 // the request did not inject Opt
 	}
@@ -183,6 +188,9 @@ func (h *H) K(r, code int64) int64 {
 	simrt.Emit(EvKE, int64(h.c.Idx), r, code)
 	return KVal(r, code)
 }
+
+// KeyIs receives the loop key of a forRange over this rule's own one-entry map.
+func (h *H) KeyIs(r, k int64) { simrt.Emit(EvKey, int64(h.c.Idx), r, k) }
 
 // Obj makes a rule-local struct.
 func (h *H) Obj(r int64) *Nobj { return &Nobj{X: r + 500} }
@@ -244,7 +252,7 @@ func (h *H) Data() map[string]interface{} {
 	d := map[string]interface{}{}
 	d["H"] = h
 	c.mu.Lock()
-	c.Req = &Req{ID: int64(c.Idx)*10 + 3, Sl: []int64{1, 2, 3}, In: &In{h}}
+	c.Req = &Req{ID: int64(c.Idx)*10 + 3, Sl: []int64{1, 2, 3}, In: &In{h}, hidden: 5}
 	c.Resp = &Resp{}
 	d["Req"] = c.Req
 	d["Resp"] = c.Resp
@@ -301,6 +309,8 @@ func (h *H) Data() map[string]interface{} {
 				d[fmt.Sprintf("VB%d", id)] = false
 			case SecUnb:
 				d[fmt.Sprintf("VT%d", id)] = fk == SecUnb
+			case SecRangeKey:
+				d[fmt.Sprintf("MM%d", id)] = map[int64]int64{int64(id) + 700: 1}
 			case SecForRange:
 				if fk == SecForRange {
 					d[fmt.Sprintf("M%d", id)] = int64(5) // not iterable
